@@ -27,7 +27,7 @@ def run(ctx):
     C.regenerate(ctx, upper=upper)
     lean_ok = C.lean_build_and_audit(ctx, MODULE, theorems)
     ctx.assumptions += [
-        "zero-padded DIFAT and unmarked DIFAT sectors need > 109 FAT sectors (>= 7 MB in V3): injected only in the thorough tier; in quick they are covered by the proof of C16_sub and the component lemmas only",
+        "zero-padded DIFAT, unmarked DIFAT sectors and too-small DIFAT/FAT counts need > 109 FAT sectors: injected on one 18 MB base (two DIFAT sectors); in the quick tier those images are judged by the deviation oracle on the implementation only, in the thorough tier also through the Raw model",
         "valid files used as bases are the library's own images (snapshots inside API histories) and synthesised foreign layouts (C04's generator)",
     ]
     if not (lean_ok and harness_ok):
@@ -54,13 +54,34 @@ def run(ctx):
                 shutil.copy(m.group(1), keep)
             C.add_violation(ctx, dev_signature(msg), msg[:300],
                             "# C16: %s\n# the image is kept as %s\n# replay: harness raw --list <file with that path>\n" % (msg[:1000], keep))
+        # one large base (18 MB, version 3, two DIFAT sectors): the DIFAT-specific deviations and the header
+        # counts that can only be too SMALL when a chain exists (quick: judged by the deviation oracle on the
+        # implementation; thorough: also through the model)
+        bigdir, bigdev = R.scratch(ctx, "big"), R.scratch(ctx, "bigdev")
+        C.harness(["phys", "--huge", bigdir, "--ops", ctx.path("huge.ops"), "--impl", ctx.path("huge.impl")])
+        big = os.path.join(bigdir, "huge_v3.cfb")
+        biglist_in, biglist = ctx.path("big.bases"), ctx.path("bigdev.list")
+        R.write_list(biglist_in, [big])
+        rc, out = C.harness(["deviate", "--seed", ctx.seed, "--bases", biglist_in, "--outdir", bigdev, "--combos", 2, "--list", biglist], timeout=3000)
+        _, bhist, boracle = C.parse_stats(out)
+        for k, v in bhist.items():
+            dhist["big:" + k] = v
+        for msg in boracle:
+            m = re.search(r"kept as (\S+?)\)", msg)
+            keep = None
+            if m and os.path.exists(m.group(1)):
+                keep = os.path.join(ctx.replaydir, "big_" + dev_signature(msg).replace(":", "_") + ".cfb")
+                shutil.copy(m.group(1), keep)
+            C.add_violation(ctx, "big:" + dev_signature(msg), msg[:300],
+                            "# C16 (18 MB base with two DIFAT sectors): %s\n# the image is kept as %s\n# replay: harness raw --list <file with that path>\n" % (msg[:1000], keep))
+        big_files = open(biglist).read().split() if (not quick and os.path.exists(biglist)) else []
         # part (a): every image of the valid / deviated / malformed families, both modes, vs the model;
         # whenever strict accepts, both dumps must be equal
         C.harness(["mutate", "--seed", ctx.seed + 5, "--bases", blist, "--outdir", mutdir, "--count", 1500 if quick else 100000, "--list", mlist])
         if not (os.path.exists(dlist) and os.path.exists(mlist)):
             ctx.undischarged.append("harness deviate/mutate crashed: " + out[-300:])
             return C.finish(ctx)
-        files = bases + layouts[25 if quick else 300:] + open(dlist).read().split() + open(mlist).read().split()
+        files = bases + layouts[25 if quick else 300:] + open(dlist).read().split() + open(mlist).read().split() + big_files
         ops, imp, mod = R.run_raw(ctx, files, "c16")
         strict_ok = 0
         for i in range(0, len(ops) - 1, 2):
